@@ -7,3 +7,6 @@ import OsacaVerif.Props.C12
 import OsacaVerif.Model.PyInt
 import OsacaVerif.Model.Marker
 import OsacaVerif.Spec.KernelSelect
+import OsacaVerif.Lemmas.PyInt
+import OsacaVerif.Lemmas.Marker
+import OsacaVerif.Props.C11
